@@ -147,6 +147,7 @@ func runRewrite(t *testing.T, fx *fixtures, c verifCase, w *bufio.Writer) {
 	rid := 0
 
 	for _, line := range c.lines {
+		verifTick()
 		if line == "" || strings.HasPrefix(line, "#") {
 			fmt.Fprintln(w, line)
 			continue
